@@ -86,7 +86,7 @@ resources = [
         rest("delete", True), rest("get_all", False, ret=item),
         rest("batch_get", False, ret=item), rest("batch_create", False, ret=item), rest("batch_update", False),
         rest("batch_partial_update", False), rest("batch_delete", False),
-        method("FINDER", "search", False, params=[field("q", prim("string")), field("lim", prim("int32"), True)], paging=True, ret=item),
+        method("FINDER", "search", False, params=[field("kw", prim("string")), field("lim", prim("int32"), True)], paging=True, ret=item),
         method("FINDER", "withMeta", False, params=[field("c", ref("Color"))], ret=item, metadata=ref("Meta")),
         method("ACTION", "ping", False, params=[field("msg", prim("string"))], ret=prim("string")),
         method("ACTION", "touch", True, params=[]),
